@@ -3,7 +3,7 @@ package main
 // C07 family T ("typed twins"): SELECT DISTINCT on a grouped batch whose result rows differ ONLY in the
 // Go type of a value. GROUP BY keeps the number 7 and the string "7" apart (cast.GroupKeyPart is
 // type-tagged), so they are two groups with two result rows; when both groups aggregate the same
-// multiset of input rows, the two result rows print identically (fmt's %v: 7 / 7, 1.5 / 1.5) and are
+// multiset of input rows, the two result rows print identically (fmt's %v: 7 / 7, 1.5 / 1.5, true / true) and are
 // still not duplicates: their serialisations (7 / "7") differ, as do the typed model values
 // PaNum / PaStr. DISTINCT has to deliver both.
 //
@@ -76,7 +76,10 @@ func c7genTwinInput(rng *RNG, q *c7query) []c7in {
 	for p := 0; p < npairs; p++ {
 		var num any
 		var text string
-		if rng.Intn(3) == 0 {
+		if k := rng.Intn(7); k == 0 { // a Go bool against the string "true" / "false"
+			b := rng.Bool()
+			num, text = b, fmt.Sprint(b)
+		} else if k <= 2 {
 			f := c7twinFloats[rng.Intn(len(c7twinFloats))]
 			num, text = f, fmt.Sprint(f)
 		} else {
